@@ -60,51 +60,75 @@ def Cfg.ofRow (r : DialectRow) : Cfg :=
     pgOther := r.prec.pPgOther }
 
 -- ------------------------------------------------------------------ precedence
+/-- the keywords `get_next_precedence*` and `parse_infix` discriminate on (the `Keyword` enum
+restricted to them); every keyword test of those functions goes through this classifier -/
+inductive KwC
+  | or | and | xor | at | not | is | in_ | between | like | ilike | rlike | regexp | similar | operator
+  | div | collate | other
+deriving DecidableEq, Repr
+
+def kwClass (k : Nat) : KwC :=
+  if k == KW.OR then .or else if k == KW.AND then .and else if k == KW.XOR then .xor
+  else if k == KW.AT then .at else if k == KW.NOT then .not else if k == KW.IS then .is
+  else if k == KW.IN then .in_ else if k == KW.BETWEEN then .between else if k == KW.LIKE then .like
+  else if k == KW.ILIKE then .ilike else if k == KW.RLIKE then .rlike else if k == KW.REGEXP then .regexp
+  else if k == KW.SIMILAR then .similar else if k == KW.OPERATOR then .operator
+  else if k == KW.DIV then .div else if k == KW.COLLATE then .collate else .other
+
+/-- `w.keyword` of a token, classified (`other` for anything that is not an unquoted keyword) -/
+def Tok.kwc : Tok → KwC
+  | .word _ _ (some k) => kwClass k
+  | _ => .other
+
+def peekKwc (ts : List Tok) : KwC :=
+  match ts with
+  | t :: _ => t.kwc
+  | [] => .other
+
+/-- precedence of `NOT x` by the keyword `x` that follows -/
+def famPrec (c : Cfg) : KwC → Nat
+  | .in_ | .between => c.prec.pBetween
+  | .like | .ilike | .rlike | .regexp | .similar => c.prec.pLike
+  | _ => c.prec.unknown
+
+def symPrec (c : Cfg) : Sym → Nat
+  | .Eq | .Lt | .LtEq | .Neq | .Gt | .GtEq | .DoubleEq | .Tilde | .TildeAsterisk
+  | .ExclamationMarkTilde | .ExclamationMarkTildeAsterisk | .DoubleTilde | .DoubleTildeAsterisk
+  | .ExclamationMarkDoubleTilde | .ExclamationMarkDoubleTildeAsterisk | .Spaceship => c.prec.pEq
+  | .Pipe => c.prec.pPipe
+  | .Caret | .Sharp | .ShiftRight | .ShiftLeft => c.prec.pCaret
+  | .Ampersand => c.prec.pAmpersand
+  | .Plus | .Minus => c.prec.pPlusMinus
+  | .Mul | .Div | .DuckIntDiv | .Mod | .StringConcat => c.prec.pMulDivModOp
+  | .DoubleColon | .ExclamationMark | .LBracket | .Overlap | .CaretAt => c.prec.pDoubleColon
+  | .Arrow | .LongArrow | .HashArrow | .HashLongArrow | .AtArrow | .ArrowAt | .HashMinus
+  | .AtQuestion | .AtAt | .Question | .QuestionAnd | .QuestionPipe => c.prec.pPgOther
+  | _ => c.prec.unknown
+
 /-- `Dialect::get_next_precedence_default` after the dialect hook returned `None` -/
 def nextPrecDefault (c : Cfg) (ts : List Tok) : Nat :=
   match ts with
   | [] => c.prec.unknown
   | t :: rest =>
     match t with
-    | .word _ _ (some k) =>
-      if k == KW.OR then c.prec.pOr
-      else if k == KW.AND then c.prec.pAnd
-      else if k == KW.XOR then c.prec.pXor
-      else if k == KW.AT then
+    | .sym s => symPrec c s
+    | .customOp _ => c.prec.pPgOther
+    | _ =>
+      match t.kwc with
+      | .or => c.prec.pOr
+      | .and => c.prec.pAnd
+      | .xor => c.prec.pXor
+      | .at =>
         match rest with
         | t1 :: t2 :: _ => if t1.isKw KW.TIME && t2.isKw KW.ZONE then c.prec.pAtTz else c.prec.unknown
         | _ => c.prec.unknown
-      else if k == KW.NOT then
-        match rest with
-        | t1 :: _ =>
-          if t1.isKw KW.IN || t1.isKw KW.BETWEEN then c.prec.pBetween
-          else if t1.isKw KW.LIKE || t1.isKw KW.ILIKE || t1.isKw KW.RLIKE || t1.isKw KW.REGEXP
-                  || t1.isKw KW.SIMILAR then c.prec.pLike
-          else c.prec.unknown
-        | [] => c.prec.unknown
-      else if k == KW.IS then c.prec.pIs
-      else if k == KW.IN || k == KW.BETWEEN then c.prec.pBetween
-      else if k == KW.LIKE || k == KW.ILIKE || k == KW.RLIKE || k == KW.REGEXP || k == KW.SIMILAR then
-        c.prec.pLike
-      else if k == KW.OPERATOR then c.prec.pBetween
-      else if k == KW.DIV then c.prec.pMulDivModOp
-      else c.prec.unknown
-    | .sym s =>
-      match s with
-      | .Eq | .Lt | .LtEq | .Neq | .Gt | .GtEq | .DoubleEq | .Tilde | .TildeAsterisk
-      | .ExclamationMarkTilde | .ExclamationMarkTildeAsterisk | .DoubleTilde | .DoubleTildeAsterisk
-      | .ExclamationMarkDoubleTilde | .ExclamationMarkDoubleTildeAsterisk | .Spaceship => c.prec.pEq
-      | .Pipe => c.prec.pPipe
-      | .Caret | .Sharp | .ShiftRight | .ShiftLeft => c.prec.pCaret
-      | .Ampersand => c.prec.pAmpersand
-      | .Plus | .Minus => c.prec.pPlusMinus
-      | .Mul | .Div | .DuckIntDiv | .Mod | .StringConcat => c.prec.pMulDivModOp
-      | .DoubleColon | .ExclamationMark | .LBracket | .Overlap | .CaretAt => c.prec.pDoubleColon
-      | .Arrow | .LongArrow | .HashArrow | .HashLongArrow | .AtArrow | .ArrowAt | .HashMinus
-      | .AtQuestion | .AtAt | .Question | .QuestionAnd | .QuestionPipe => c.prec.pPgOther
-      | _ => c.prec.unknown
-    | .customOp _ => c.prec.pPgOther
-    | _ => c.prec.unknown
+      | .not => famPrec c (peekKwc rest)
+      | .is => c.prec.pIs
+      | .in_ | .between => c.prec.pBetween
+      | .like | .ilike | .rlike | .regexp | .similar => c.prec.pLike
+      | .operator => c.prec.pBetween
+      | .div => c.prec.pMulDivModOp
+      | .collate | .other => c.prec.unknown
 
 /-- `PostgreSqlDialect::get_next_precedence` -/
 def pgOverride (c : Cfg) (ts : List Tok) : Option Nat :=
@@ -112,7 +136,6 @@ def pgOverride (c : Cfg) (ts : List Tok) : Option Nat :=
   | [] => none
   | t :: _ =>
     match t with
-    | .word _ _ (some k) => if k == KW.COLLATE then some c.pgCollate else none
     | .sym s =>
       match s with
       | .LBracket => some c.pgBracket
@@ -121,7 +144,7 @@ def pgOverride (c : Cfg) (ts : List Tok) : Option Nat :=
       | .CaretAt | .StringConcat | .Sharp | .ShiftRight | .ShiftLeft => some c.pgOther
       | _ => none
     | .customOp _ => some c.pgOther
-    | _ => none
+    | _ => if t.kwc = .collate then some c.pgCollate else none
 
 /-- `Parser::get_next_precedence` -/
 def nextPrec (c : Cfg) (ts : List Tok) : Nat :=
@@ -333,13 +356,13 @@ def binOpOf (c : Cfg) (t : Tok) : OpClass :=
     | .Question => .op .Question | .QuestionAnd => .op .QuestionAnd | .QuestionPipe => .op .QuestionPipe
     | _ => .none
   | .customOp s => .op (.Custom s)
-  | .word _ _ (some k) =>
-    if k == KW.AND then .op .And
-    else if k == KW.OR then .op .Or
-    else if k == KW.XOR then .op .Xor
-    else if k == KW.OPERATOR && (c.isPostgres || c.isGeneric) then .outside
-    else .none
-  | _ => .none
+  | _ =>
+    match t.kwc with
+    | .and => .op .And
+    | .or => .op .Or
+    | .xor => .op .Xor
+    | .operator => if c.isPostgres || c.isGeneric then .outside else .none
+    | _ => .none
 
 inductive IsPlan
   | post (k : IsKind) (ops rest : List Tok)
@@ -392,46 +415,39 @@ def isTail (ts : List Tok) : Option IsPlan :=
 /-- after `prev_token()`: `[NOT] (REGEXP|RLIKE|IN|BETWEEN|LIKE|ILIKE|SIMILAR TO) …`;
 `neg`/`pre` is the optional `NOT` already taken off `ts` -/
 def notFamilyTail (c : Cfg) (neg : Bool) (pre : List Tok) (ts : List Tok) : Except Err InfixPlan :=
-  -- `let regexp = parse_keyword(REGEXP); let rlike = parse_keyword(RLIKE);` both run
-  match eatKw ts KW.REGEXP with
-  | some (t1, r1) =>
-    match eatKw r1 KW.RLIKE with
-    | some (t2, r2) => .ok (.right (.like .Regexp neg false) (pre ++ [t1, t2]) r2 c.prec.pLike)
-    | none => .ok (.right (.like .Regexp neg false) (pre ++ [t1]) r1 c.prec.pLike)
-  | none =>
-    match eatKw ts KW.RLIKE with
-    | some (t1, r1) => .ok (.right (.like .RLike neg false) (pre ++ [t1]) r1 c.prec.pLike)
-    | none =>
-      match eatKw ts KW.IN with
-      | some (t1, r1) =>
-        -- parse_in
-        if peekKw r1 KW.UNNEST then .error .unsupported
-        else match r1 with
-          | .sym .LParen :: r2 =>
-            if subQueryAhead r2 then .error .unsupported else .ok (.inl neg (pre ++ [t1, .sym .LParen]) r2)
-          | _ => .error (expected "(" r1.head?)
-      | none =>
-        match eatKw ts KW.BETWEEN with
-        | some (t1, r1) => .ok (.between neg (pre ++ [t1]) r1)
-        | none =>
-          match eatKw ts KW.LIKE with
-          | some (t1, r1) =>
-            match eatKw r1 KW.ANY with
-            | some (t2, r2) => .ok (.like .Like neg true (pre ++ [t1, t2]) r2)
-            | none => .ok (.like .Like neg false (pre ++ [t1]) r1)
-          | none =>
-            match eatKw ts KW.ILIKE with
-            | some (t1, r1) =>
-              match eatKw r1 KW.ANY with
-              | some (t2, r2) => .ok (.like .ILike neg true (pre ++ [t1, t2]) r2)
-              | none => .ok (.like .ILike neg false (pre ++ [t1]) r1)
-            | none =>
-              match eatKw ts KW.SIMILAR with
-              | some (t1, r1) =>
-                match eatKw r1 KW.TO with
-                | some (t2, r2) => .ok (.like .SimilarTo neg false (pre ++ [t1, t2]) r2)
-                | none => .error (expected "IN or BETWEEN after NOT" ts.head?)
-              | none => .error (expected "IN or BETWEEN after NOT" ts.head?)
+  match ts with
+  | [] => .error (expected "IN or BETWEEN after NOT" none)
+  | t1 :: r1 =>
+    match t1.kwc with
+    | .regexp =>
+      -- `let regexp = parse_keyword(REGEXP); let rlike = parse_keyword(RLIKE);` both run
+      match r1 with
+      | [] => .ok (.right (.like .Regexp neg false) (pre ++ [t1]) r1 c.prec.pLike)
+      | t2 :: r2 =>
+        if t2.kwc = .rlike then .ok (.right (.like .Regexp neg false) (pre ++ [t1, t2]) r2 c.prec.pLike)
+        else .ok (.right (.like .Regexp neg false) (pre ++ [t1]) r1 c.prec.pLike)
+    | .rlike => .ok (.right (.like .RLike neg false) (pre ++ [t1]) r1 c.prec.pLike)
+    | .in_ =>
+      -- parse_in
+      if peekKw r1 KW.UNNEST then .error .unsupported
+      else match r1 with
+        | .sym .LParen :: r2 =>
+          if subQueryAhead r2 then .error .unsupported else .ok (.inl neg (pre ++ [t1, .sym .LParen]) r2)
+        | _ => .error (expected "(" r1.head?)
+    | .between => .ok (.between neg (pre ++ [t1]) r1)
+    | .like =>
+      match eatKw r1 KW.ANY with
+      | some (t2, r2) => .ok (.like .Like neg true (pre ++ [t1, t2]) r2)
+      | none => .ok (.like .Like neg false (pre ++ [t1]) r1)
+    | .ilike =>
+      match eatKw r1 KW.ANY with
+      | some (t2, r2) => .ok (.like .ILike neg true (pre ++ [t1, t2]) r2)
+      | none => .ok (.like .ILike neg false (pre ++ [t1]) r1)
+    | .similar =>
+      match eatKw r1 KW.TO with
+      | some (t2, r2) => .ok (.like .SimilarTo neg false (pre ++ [t1, t2]) r2)
+      | none => .error (expected "IN or BETWEEN after NOT" (some t1))
+    | _ => .error (expected "IN or BETWEEN after NOT" (some t1))
 
 /-- tokens after a `::` type word that would extend the type (precision, `UNSIGNED`, array suffix) -/
 def typeContinues (ts : List Tok) : Bool :=
@@ -443,7 +459,7 @@ def infixHead (c : Cfg) (d q : Nat) (ts : List Tok) : Except Err InfixPlan :=
   | [] => .error (noInfix none)
   | t :: rest =>
     -- MySqlDialect::parse_infix
-    if c.isMySql && t.isKw KW.DIV then .ok (.right (.op .MyIntegerDivide) [t] rest q)
+    if c.isMySql && t.kwc = .div then .ok (.right (.op .MyIntegerDivide) [t] rest q)
     else
     match binOpOf c t with
     | .outside => .error .unsupported
@@ -461,29 +477,26 @@ def infixHead (c : Cfg) (d q : Nat) (ts : List Tok) : Except Err InfixPlan :=
         else .ok (.right (.op o) [t] rest q)
     | .none =>
       match t with
-      | .word _ _ kw =>
-        match kw with
-        | none => .error (noInfix (some t))
-        | some k =>
-          if k == KW.IS then
-            match isTail rest with
-            | some (.post ik ops rest') => .ok (.post (.is ik) (t :: ops) rest')
-            | some (.distinct neg ops rest') => .ok (.right (.isDistinct neg) (t :: ops) rest' q)
-            | none => .error (expected "[NOT] NULL or TRUE|FALSE or [NOT] DISTINCT FROM after IS" rest.head?)
-          else if k == KW.AT then
-            match rest with
-            | t1 :: r1 =>
-              if t1.isKw KW.TIME then
-                match r1 with
-                | t2 :: r2 => if t2.isKw KW.ZONE then .ok (.right .atTz [t, t1, t2] r2 q)
-                              else .error (expected "ZONE" r1.head?)
-                | [] => .error (expected "ZONE" none)
-              else .error (expected "TIME" rest.head?)
-            | [] => .error (expected "TIME" none)
-          else if k == KW.NOT then notFamilyTail c true [t] rest
-          else if k == KW.IN || k == KW.BETWEEN || k == KW.LIKE || k == KW.ILIKE || k == KW.SIMILAR
-                  || k == KW.REGEXP || k == KW.RLIKE then notFamilyTail c false [] ts
-          else .error (noInfix (some t))
+      | .word _ _ _ =>
+        match t.kwc with
+        | .is =>
+          match isTail rest with
+          | some (.post ik ops rest') => .ok (.post (.is ik) (t :: ops) rest')
+          | some (.distinct neg ops rest') => .ok (.right (.isDistinct neg) (t :: ops) rest' q)
+          | none => .error (expected "[NOT] NULL or TRUE|FALSE or [NOT] DISTINCT FROM after IS" rest.head?)
+        | .at =>
+          match rest with
+          | t1 :: r1 =>
+            if t1.isKw KW.TIME then
+              match r1 with
+              | t2 :: r2 => if t2.isKw KW.ZONE then .ok (.right .atTz [t, t1, t2] r2 q)
+                            else .error (expected "ZONE" r1.head?)
+              | [] => .error (expected "ZONE" none)
+            else .error (expected "TIME" rest.head?)
+          | [] => .error (expected "TIME" none)
+        | .not => notFamilyTail c true [t] rest
+        | .in_ | .between | .like | .ilike | .similar | .regexp | .rlike => notFamilyTail c false [] ts
+        | _ => .error (noInfix (some t))
       | .sym .DoubleColon =>
         -- parse_data_type: one recursion level, then one type word
         if d = 0 then .error .rle
